@@ -1,5 +1,6 @@
 import Rtsp.Proofs.TimeDecRef
 import Rtsp.Proofs.Ntp
+import Rtsp.Proofs.NtpFloat
 import Rtsp.Proofs.SenderReportFloat
 /-
 C15 — timestamps: 64-bit PTS continuation and NTP mapping.
@@ -93,6 +94,12 @@ theorem pts_congruent_mod_2_32 (s : State) (ops : List Op) (id : Nat) (i j : Nat
 theorem pts_available_iff (s : State) (o : Op) :
     (decode s o).2.isSome = true ↔ o.rate ≠ 0 ∧ (s.tracks o.id ≠ none ∨ o.eq = true) :=
   decode_isSome_iff s o
+
+/-- once a track has started, every later packet of it gets a PTS (unless its clock rate is 0), whatever
+happens on the other tracks in between -/
+theorem started_track_keeps_decoding (s : State) (ops : List Op) (o : Op) (h : s.tracks o.id ≠ none)
+    (hr : o.rate ≠ 0) : (decode (run s ops).1 o).2.isSome = true :=
+  started_keeps_decoding s ops o h hr
 
 /-! ## multiplyAndDivide -/
 
@@ -204,6 +211,17 @@ theorem ntp_decode_floor (v : Nat) :
 /-- Encode's fraction never reaches 2^32, so `secs<<32 | fractional` never corrupts the seconds -/
 theorem ntp_fraction_no_carry (n : Nat) (hn : n < 1000000000) : Ntp.encFrac n ≤ 4294967292 :=
   Ntp.encFrac_lt n hn
+
+/-- **the float path of `Encode` is exact integer rounding**: the Go expression
+`uint64(math.Round(float64((ntp%1000000000)*(1<<32)) / 1000000000))`, transcribed onto the binary64 model
+(`F64`: exact conversion of the 30-significant-bit product, one correctly rounded division, `math.Round`),
+equals the nearest integer of `n·2^32/10^9` for every `n < 10^9` — the model `Ntp.encode` may therefore use
+integer arithmetic.  (For the real `float64` this is validated on all 10^9 values of `n`, thorough tier.) -/
+theorem ntp_encode_float_path_exact (n : Nat) (hn : n < 1000000000) :
+    Ntp.encFracFloat n = Ntp.encFrac n :=
+  Ntp.encFracFloat_eq n hn
+
+example : Ntp.encFracFloat 999999999 = 4294967292 ∧ Ntp.encFracFloat 123456789 = 530242871 := by decide
 
 /-! ## sender report → PacketNTP -/
 
